@@ -292,8 +292,9 @@ class _InlineFunction(XPathFunction):
         if context is None:
             raise self.missing_context()
         elif self.label.endswith('function'):
-            self.variables = context.variables.copy()  # like a closure
-            return self
+            func = copy(self)
+            func.variables = context.variables.copy()  # like a closure
+            return func
 
         # A function test
         if not isinstance(context.item, XPathFunction):
